@@ -280,7 +280,9 @@ def multi_pattern(item):
                     res = with_alarm(lambda: G.glob(full, flags=f | G.N, root_dir=t.root))
                 else:
                     res = with_alarm(lambda: G.glob(list(pats), exclude=list(excl) if excl else None, **kw))
-                single = [G.glob(p, flags=(f & ~G.Q), root_dir=t.root) for p in pats]
+                # per-pattern results WITH NOUNIQUE: under IGNORECASE the duplicate filter also folds case variants of distinct entries ('x', 'X'),
+                # which NOUNIQUE switches off; the comparisons below are on key sets (no NOUNIQUE) or exact lists (NOUNIQUE)
+                single = [G.glob(p, flags=(f | G.Q), root_dir=t.root) for p in pats]
                 # expansion of BRACE / SPLIT inclusion patterns is part of the list: compare against the expanded singles
                 exf = (f | G.D) & ~(G.N | G.A | G.Q | G.O)
                 excluded = lambda x: any(G.globmatch(x if not os.path.isdir(os.path.join(t.root, x)) or x.endswith('/') else x + '/', e, flags=exf) for e in (excl or []))
